@@ -195,3 +195,14 @@ def run(ck, prog):
     from sa.builders import check_builders
     check_builders(ck, prog, r"^linear::(lasso::Lasso|elastic_net::ElasticNet)Parameters$")
     ck.floor("E2-builder", 9)
+
+
+# ------------------------------------------------------------------ generic: rows/cols (outer/inner) mix-up of locally allocated buffers
+_run_pre_dimension = run
+DIMENSION_FILES = ['src/linear/bg_solver.rs', 'src/linear/elastic_net.rs', 'src/linear/lasso.rs', 'src/linear/lasso_optimizer.rs']
+
+
+def run(ck, prog):
+    _run_pre_dimension(ck, prog)
+    from sa import dimension
+    dimension.run_rule(ck, prog, set(DIMENSION_FILES))
